@@ -602,3 +602,21 @@ SPECS += [
          calls={"self.notify_targets": {"lean": "Adapter_notify_targets", "args": ["self.targets", "self.notes", 0],
                                         "stmt": True, "updates": ["notes"]}}, props=["C01", "C11", "C12"]),
 ]
+
+
+# ---- sdk/adapter.py : TimeDelayAdapter.get_data — the time a delay adapter asks its source for (C13 C02 C01) -----------
+# `with_delay` (of the subclass) is a parameter; the upstream pull is recorded (time, requesting end point) and answered
+# with a given value; `_pulled` (the hook in which DelayToPull remembers the request) is recorded too
+SPECS += [
+    dict(lean="TimeDelayAdapter_get_data", path="sdk/adapter.py", qual="TimeDelayAdapter.get_data", group="Delay",
+         fields={"reqs": "List[Tuple[Time,Obj]]", "pulled": "List[Time]"}, params={"time": "Time", "target": "Obj"},
+         extra_params={"withDelay": "Lean:(Int → Except Err Int)", "answer": "Val"}, ret="Val",
+         assume_false=["time is not None and (not isinstance(time, datetime))"],
+         calls={"self.with_delay": {"lean": "withDelay", "args": [0], "ret": "Time"},
+                "self._get_data": {"lean": "Py.recordReq", "args": ["self.reqs", "(new_time, target)", "answer"],
+                                   "argtypes": ["List[Tuple[Time,Obj]]", "Tuple[Time,Obj]", "Val"], "ret": "Val", "updates": ["reqs"]},
+                "self._pulled": {"lean": "Py.recordPush", "args": ["self.pulled", 0], "argtypes": ["List[Time]", "Time"],
+                                 "stmt": True, "updates": ["pulled"]}},
+         consts={"tools.prepare(data, self._output_info, report_conversion=True)": ("(data, (none : Option Unit))", "Tuple[Val,Opt[Unit]]")},
+         locals={"xdata": "Val", "conv": "Opt[Unit]", "data": "Val", "new_time": "Time"}, props=["C13", "C02", "C01"]),
+]
